@@ -307,6 +307,20 @@ func densePacket(t byte, kind string, a []int) *spec.Packet {
 	switch kind {
 	case "site": // base, site, length
 		return gen.WithSiteLen(denseBase(t, a[0]), a[1], a[2])
+	case "sitebin": // base, site, length: a payload / password of bytes that are no UTF-8
+		p := gen.WithSiteLen(denseBase(t, a[0]), a[1], a[2])
+		if p == nil {
+			return nil
+		}
+		ss := gen.Sites(p)
+		if tag := ss[a[1]].Tag; tag != 'L' && tag != 'P' {
+			return nil
+		}
+		b := *ss[a[1]].Ptr(p)
+		for i := range b {
+			b[i] = [...]byte{0xff, 0xfe, 0x80, 0xc3, 0x00, 0x28}[i%6]
+		}
+		return p
 	case "pair": // base, site1, len1, site2, len2
 		p := gen.WithSiteLen(denseBase(t, a[0]), a[1], a[2])
 		if p == nil {
@@ -386,6 +400,20 @@ func densePacket(t byte, kind string, a []int) *spec.Packet {
 		}
 		p.Props = props
 		return p
+	case "filterlist": // indices into denseHierarchy, -1 = none (two or three filters related by prefix, level, wildcard)
+		p := minimalPacket(t)
+		p.Filters = nil
+		for i, k := range a {
+			if k < 0 {
+				continue
+			}
+			f := spec.Filter{Topic: []byte(denseHierarchy[k]), Opts: byte(i % 3)}
+			if t == 10 {
+				f.Opts = 0
+			}
+			p.Filters = append(p.Filters, f)
+		}
+		return p
 	case "filter": // content index, option byte, position (0 alone, 1 first of two, 2 last of two)
 		p := minimalPacket(t)
 		all := append(append([]string{}, gen.FilterContents...), gen.FilterContentsOdd...)
@@ -414,6 +442,9 @@ func describeDense(t byte, kind string, a []int) string {
 	case "site":
 		ss := gen.Sites(denseBase(t, a[0]))
 		return fmt.Sprintf("%s %s with %s of %d bytes", name, bases[a[0]], ss[a[1]].Name, a[2])
+	case "sitebin":
+		ss := gen.Sites(denseBase(t, a[0]))
+		return fmt.Sprintf("%s %s with %s of %d bytes that are not UTF-8 (ff fe 80 c3 00 28 ...)", name, bases[a[0]], ss[a[1]].Name, a[2])
 	case "pair":
 		ss := gen.Sites(denseBase(t, a[0]))
 		return fmt.Sprintf("%s %s with %s of %d bytes and %s of %d bytes", name, bases[a[0]], ss[a[1]].Name, a[2], ss[a[3]].Name, a[4])
@@ -429,6 +460,14 @@ func describeDense(t byte, kind string, a []int) string {
 		return fmt.Sprintf("%s rich with %s = %q and reason code %#02x", name, ss[a[0]].Name, gen.AllContents()[a[1]], a[2])
 	case "subid":
 		return fmt.Sprintf("%s %s with subscription identifier %d (mode %d)", name, bases[a[0]], a[1], a[2])
+	case "filterlist":
+		var fs []string
+		for _, k := range a {
+			if k >= 0 {
+				fs = append(fs, denseHierarchy[k])
+			}
+		}
+		return fmt.Sprintf("%s with the filters %q", name, fs)
 	case "filter":
 		all := append(append([]string{}, gen.FilterContents...), gen.FilterContentsOdd...)
 		return fmt.Sprintf("%s with filter %q options %#02x position %d", name, all[a[0]], a[1], a[2])
@@ -474,9 +513,28 @@ func enumDense(x *core.Ctx, types []byte, odd bool, fn func(c *pcase)) {
 						return
 					}
 				}
+				if tag := gen.Sites(denseBase(t, b))[si].Tag; tag == 'L' || tag == 'P' {
+					for _, n := range lens {
+						if !emit("S5.dense.sitebin", t, "sitebin", b, si, n) {
+							return
+						}
+					}
+				}
 			}
 			if b == 2 {
 				continue
+			}
+			if b == 0 {
+				// two long fields at once (sums beyond 65 535, each far from it)
+				for s1 := 0; s1 < ns; s1++ {
+					for s2 := s1 + 1; s2 < ns; s2++ {
+						for _, nn := range [][2]int{{30000, 40000}, {40000, 30000}, {32768, 32768}, {65535, 65535}, {65535, 1}, {1, 65535}} {
+							if !emit("S5.dense.bigpair", t, "pair", b, s1, nn[0], s2, nn[1]) {
+								return
+							}
+						}
+					}
+				}
 			}
 			for s1 := 0; s1 < ns; s1++ {
 				for s2 := s1 + 1; s2 < ns; s2++ {
@@ -610,9 +668,33 @@ func enumDense(x *core.Ctx, types []byte, odd bool, fn func(c *pcase)) {
 					}
 				}
 			}
+			// lists whose elements are related to each other: one a level-wise
+			// prefix of the other (in either order), siblings, the same filter
+			// twice, wildcards next to what they cover: all ordered pairs, and
+			// all ordered triples over the first seven
+			nh := len(denseHierarchy)
+			for i := 0; i < nh; i++ {
+				for j := 0; j < nh; j++ {
+					if !emit("S5.dense.filterlist", t, "filterlist", i, j, -1) {
+						return
+					}
+					if i >= 7 || j >= 7 {
+						continue
+					}
+					for k := 0; k < 7; k++ {
+						if !emit("S5.dense.filterlist", t, "filterlist", i, j, k) {
+							return
+						}
+					}
+				}
+			}
 		}
 	}
 }
+
+// denseHierarchy: filters related to each other by level-wise prefix,
+// siblinghood and wildcards.
+var denseHierarchy = []string{"a", "a/b", "a/b/c", "a/b/d", "a/+", "a/#", "b", "a/b/c/d", "/", "a/", "a//b", "#", "+/b", "$share/g/a/b", "a/b/c/d/e/f/g/h"}
 
 var allTypes = []byte{1, 2, 3, 4, 5, 6, 7, 8, 9, 10, 11, 12, 13, 14, 15}
 
